@@ -39,6 +39,12 @@ def run(ctx):
     eng, prog = ctx.eng, ctx.prog
     ctx.assume("A1", "A7", "A8")
     subs = subparsers(prog)
+    if not (subs.get("verify-metadata") and subs["verify-metadata"]["func"] and len(subs["verify-metadata"]["positionals"]) >= 2):
+        # the registration is not written out call by call (a table, a generator, a helper drive
+        # it): read it from the walked builder instead
+        from sa.extract import subparsers_from_events
+
+        subs = subparsers_from_events(eng) or subs
     ctx.info["subcommands"] = {k: {"positionals": v["positionals"], "func": v["func"]} for k, v in subs.items()}
     vm = subs.get("verify-metadata")
     site_bp = fn_site(eng, eng.walk("cli.cli"))
